@@ -133,6 +133,7 @@ TEval ==
                      kind |-> Ev.kind, rec |-> Ev.rec]
          faultexp == IF Ev.fault = "exception" THEN "InjectedTargetError"
                      ELSE IF Ev.fault = "exception2" THEN "InjectedTargetError2"
+                     ELSE IF Ev.fault = "exception3" THEN "InjectedStopIteration"
                      ELSE "ValueError"
          st2   == [st EXCEPT !.nev = st.nev + 1,
                              !.rem = IF ispoll THEN st.rem \ {d} ELSE st.rem]
@@ -161,6 +162,9 @@ TEval ==
         \* the evaluated point is a row the candidate filter returned in this step (initial design, search,
         \* poll): nothing is altered or added between filtering and evaluation
         \cup Chk(Ev.infilt, "C17.evaluated_point_was_filtered")
+        \* ... and each filtered candidate is handed to the target at most once per step (counted from the
+        \* filter call on, so that the recorded finding "already evaluated points are kept" does not hide it)
+        \cup Chk(~Ev.repstep, "C17.candidate_evaluated_once")
         \cup Chk(Ev.ntc = 1, "C03.count_honest")
         \cup Chk(Ev.fc = (IF ok THEN s.fc + 1 ELSE s.fc), "C03.count_honest")
         \cup Chk((s.budgetApplies /\ ~isinit /\ has) => Ev.n <= s.cfg.budget,
@@ -169,7 +173,7 @@ TEval ==
                     => Ev.n <= s.budgetEff, "C03.budget_respected")
         \cup Chk(~s.faulted, "C10.no_call_after_fault")
         \cup Chk(Ev.fault # "" => Ev.outcome = faultexp,
-                 IF Ev.fault \in {"exception", "exception2"} THEN "C10.same_exception_type"
+                 IF Ev.fault \in {"exception", "exception2", "exception3"} THEN "C10.same_exception_type"
                  ELSE "C10.invalid_value_is_valueerror")
         \cup Chk(~ok => Ev.nlogged = s.nlog, "C10.nothing_invalid_logged")
         \cup Chk((ok /\ Ev.fault = "") => Ev.retok, "C12.returned_value_is_observed")
@@ -602,14 +606,15 @@ TCrash ==
   /\ LET n == Len(s.calls)
          inj == s.injected # ""
          exptype == IF s.injected = "exception" THEN "InjectedTargetError"
-                    ELSE IF s.injected = "exception2" THEN "InjectedTargetError2" ELSE "ValueError"
+                    ELSE IF s.injected = "exception2" THEN "InjectedTargetError2"
+                    ELSE IF s.injected = "exception3" THEN "InjectedStopIteration" ELSE "ValueError"
      IN Step([s EXCEPT !.phase = "crashed", !.ended = "crash"],
              Chk(inj \/ Ev.type \in {"NonProgress", "RunTimeout"}, "C09.no_crash")
         \cup Chk(Ev.type # "NonProgress", "C03.non_progress_bounded")
         \* the per-run watchdog fired: optimize() did not return within the wall-clock limit
         \cup Chk(Ev.type # "RunTimeout", "C03.run_terminates")
         \cup Chk(inj => Ev.type = exptype,
-                 IF s.injected \in {"exception", "exception2"} THEN "C10.same_exception_type"
+                 IF s.injected \in {"exception", "exception2", "exception3"} THEN "C10.same_exception_type"
                  ELSE "C10.invalid_value_is_valueerror")
         \cup Chk(inj => (Ev.fc = n /\ Ev.ncalls = n + 1), "C10.count_only_valid")
         \cup Chk(inj => (Ev.loggedfinite /\ Ev.nlog <= n), "C10.nothing_invalid_logged"))
